@@ -299,3 +299,66 @@ func VX_C05_RawRetained(args []int) {
 	vxAssert(w.off == len(w.data), "stream consumed exactly")
 	vxCover("c05.raw.retained")
 }
+
+func init() { vxRegister("VX_C05_RawLongFields", VX_C05_RawLongFields) }
+
+// VX_C05_RawLongFields: status text and metadata of the documented boundary
+// lengths (around 255/256 and beyond, independently of each other), with one
+// symbolic byte in each, round-trip through the raw protocol and leave the
+// stream in sync for the next frame. args: statusMsgLen, metaValueLen
+func VX_C05_RawLongFields(args []int) {
+	mk := func(n int, c byte, sym byte) string {
+		b := make([]byte, n)
+		for k := range b {
+			b[k] = c
+		}
+		if n > 0 {
+			b[n/2] = sym
+		}
+		return string(b)
+	}
+	s1, s2 := vxByte("s1"), vxByte("s2")
+	vxAssume(s1 >= 'a' && s1 <= 'z' && s2 >= 'a' && s2 <= 'z')
+	msg, mv := mk(args[0], 'm', s1), mk(args[1], 'v', s2)
+	m := NewMessage()
+	m.SetSeq(9)
+	m.SetMtype(2)
+	m.SetBodyCodec('s')
+	m.SetServiceMethod("/long")
+	m.SetBody([]byte("body"))
+	if args[0] > 0 {
+		m.SetStatus(NewStatus(1001, msg, ""))
+	}
+	if args[1] > 0 {
+		m.Meta().Add("k", mv)
+	}
+	w := &vxBuf{}
+	pw := RawProtoFunc(w)
+	vxAssume(pw.Pack(m) == nil)
+	next := NewMessage()
+	next.SetSeq(10)
+	next.SetMtype(1)
+	next.SetServiceMethod("/next")
+	next.SetBody([]byte("nx"))
+	vxAssume(pw.Pack(next) == nil)
+	pr := RawProtoFunc(w)
+	got := NewMessage(vxBytesBody())
+	uerr, panicked := vxUnpackRecover(pr, got)
+	decoded := uerr == nil && !panicked
+	if args[0] > 0 {
+		vxAssert(decoded && got.Status(true).Code() == 1001 && got.Status(true).Msg() == msg, "[C04] a long status is received exactly as sent (raw protocol)")
+	} else {
+		vxAssert(decoded && got.StatusOK(), "[C04] an OK status next to long metadata is received as OK (raw protocol)")
+	}
+	vxAssert(decoded, "frame with long status/metadata decodes")
+	vxAssert(got.Seq() == 9 && got.ServiceMethod() == "/long" && got.BodyCodec() == 's' && string(*(got.Body().(*[]byte))) == "body", "header and body round trip next to long fields")
+	if args[1] > 0 {
+		vxAssert(string(got.Meta().Peek("k")) == mv && got.Meta().Len() == 1, "long metadata round trip")
+	} else {
+		vxAssert(got.Meta().Len() == 0, "empty metadata round trip")
+	}
+	g2 := NewMessage(vxBytesBody())
+	vxAssert(pr.Unpack(g2) == nil && g2.Seq() == 10 && g2.ServiceMethod() == "/next", "the following frame decodes: stream in sync")
+	vxAssert(w.off == len(w.data), "both frames consumed exactly")
+	vxCover("c05.raw.longfields")
+}
